@@ -146,11 +146,14 @@ def saveAt (f : Bytes) (ptr : Nat) (vmaj : Nat) (frames : Bytes) (pad : PadChoic
     else
       let newPadding := getPadding pad ((old : Int) - needed) trailing.toNat
       if newPadding < 0 then .error .mutagen
+      -- "the size field of the tag header holds 28 bits": `error("tag too large")`, or the padding is capped
+      else if frames.length > 2 ^ 28 - 1 then .error .mutagen
       else
-        match Id3F.header vmaj (frames.length + newPadding.toNat) with
+        let padN : Nat := min newPadding.toNat (2 ^ 28 - 1 - frames.length)
+        match Id3F.header vmaj (frames.length + padN) with
         | .error e => .error e
         | .ok hd =>
-          let data := hd ++ frames ++ zeros newPadding.toNat
+          let data := hd ++ frames ++ zeros padN
           let f2 := writeTrunc f ptr data
           -- `dsd_header.total_size = fileobj.tell(); dsd_header.write()`
           writeDsd f2 ⟨f2.length, ptr⟩
